@@ -54,7 +54,8 @@ def chunks(tier, seed):
 def _profile(dup):
     return gen.profile("full", p_dup_key=0.5 if dup else 0.0, p_after=0.15, p_invoke=0.2,
                        p_history=0.25, p_hist_target=0.25, p_hist_default=0.0, p_custom_id=0.0,
-                       final_out=False, max_states=14, p_parallel=0.3, p_guard=0.3, p_root_on=0.5)
+                       final_out=False, max_states=14, p_parallel=0.3, p_guard=0.3, p_root_on=0.5,
+                       max_cands=4)
 
 
 # ---------------------------------------------------------------------------
@@ -147,6 +148,9 @@ def render_states(cfg, case, moved):
     return objs, top, root
 
 
+SHAPES = {}
+
+
 def render_transitions(cfg, case, moved, objs, rng):
     """Transition objects for the moved handlers, in declaration order per (state, event)"""
     out = []
@@ -180,10 +184,19 @@ def render_transitions(cfg, case, moved, objs, rng):
                                             actions=copy.deepcopy(t.get("actions")),
                                             reenter=bool(t.get("reenter"))))
             if len(ts) > 1 and rng.random() < 0.5:
-                g = ts[0]
-                for t in ts[1:]:
-                    g = g | t
-                out.append(g)
+                # any bracketing of t1 | t2 | ... | tn denotes the same ordered list
+                def union(lo, hi):
+                    if hi - lo == 1:
+                        return ts[lo]
+                    cut = rng.randint(lo + 1, hi - 1)
+                    if cut - lo == 1 and hi - cut > 1:
+                        SHAPES["transition|group"] = SHAPES.get("transition|group", 0) + 1
+                    elif cut - lo > 1 and hi - cut > 1:
+                        SHAPES["group|group"] = SHAPES.get("group|group", 0) + 1
+                    elif cut - lo > 1:
+                        SHAPES["group|transition"] = SHAPES.get("group|transition", 0) + 1
+                    return union(lo, cut) | union(cut, hi)
+                out.append(union(0, len(ts)))
             else:
                 out.extend(ts)
     return out
@@ -406,6 +419,9 @@ def api_case(res, spec, idx, tier):
         res.evaluations += 1
         res.count("api.built." + style)
         res.count("api.transition-objects", nt)
+        for k_, v_ in SHAPES.items():
+            res.count("api.unions." + k_, v_)
+        SHAPES.clear()
         if nt >= 2 and any(n.depth >= 2 for n in case.tree.order):
             res.hashes.add(h([case.plan, style, sorted(moved.items())]))
         d = fingerprint.diff(fp0, fingerprint.machine_fp(m1))
@@ -424,6 +440,25 @@ def api_case(res, spec, idx, tier):
             continue
         # independence: a second build from the SAME definition, after the first machine ran,
         # equals the reference again (structure, context, behaviour)
+        if style == "builder":
+            # a per-build context override belongs to that build alone
+            over = {"override": idx}
+            try:
+                mo = definition.build(context=copy.deepcopy(over))
+            except LIBERR as e:
+                res.violation("C19:builder-build-with-context-rejected/%s" % type(e).__name__, str(e)[:160],
+                              witness, case={"idx": idx})
+                continue
+            res.count("api.builder-context-override-builds")
+            got = fingerprint.machine_fp(mo)
+            want = fingerprint.machine_fp(create_machine(dict(copy.deepcopy(cfg), context=copy.deepcopy(over)),
+                                                         logic=lg0))
+            d = fingerprint.diff(want, got)
+            if d:
+                res.violation("C19:builder-context-override-builds-different-machine",
+                              "build(context=...) differs from the config with that context: %s" % d[:3],
+                              witness, case={"idx": idx})
+                continue
         try:
             m2 = build()
         except LIBERR as e:
@@ -804,7 +839,8 @@ def quota(counters, tier):
     out = []
     for k in ("api.built.functional", "api.built.builder", "api.built.class", "api.traces-compared",
               "api.rebuilds", "api.transition-objects", "api.overlapping-definitions",
-              "api.cases-with-names-reused-at-different-depths",
+              "api.cases-with-names-reused-at-different-depths", "api.unions.transition|group",
+              "api.unions.group|transition", "api.builder-context-override-builds",
               "discovery.runs.module", "discovery.runs.provider", "discovery.runs.subclass",
               "discovery.bindings-checked", "discovery.missing-reported",
               "discovery.composite-guards-accepted", "discovery.builtins-not-required",
